@@ -197,13 +197,24 @@ def run(scn):
                 ropts = dict(o)
                 if scn.get('maxMibSize'):
                     ropts['maxMibSize'] = scn['maxMibSize']
-                readers = getReadersFromUrls(make_url(scn, top), **ropts)
-                rd = readers[0]
+                if scn.get('useIndexFile') is False:
+                    ropts['useIndexFile'] = False
+                urls = [make_url(scn, top)]
+                pos = 0
+                dec = scn.get('decoy')
+                if dec:
+                    # several sources in one call (as the scripts do with repeated --mib-source): another URL before or after
+                    durl = os.path.join(root, 'elsewhere', 'other.zip' if 'zip' in dec else 'otherdir')
+                    if dec.endswith('before'):
+                        urls.insert(0, durl)
+                        pos = 1
+                    else:
+                        urls.append(durl)
+                readers = getReadersFromUrls(*urls, **ropts)
+                rd = readers[pos]
                 if scn['kind'] == 'dir':
-                    if scn.get('recursive') is False or scn.get('ignoreErrors') is False or scn.get('useIndexFile') is False:
+                    if scn.get('recursive') is False or scn.get('ignoreErrors') is False:
                         rd = FileReader(top, recursive=scn.get('recursive', True), ignoreErrors=scn.get('ignoreErrors', True)).setOptions(**ropts)
-                        if scn.get('useIndexFile') is False:
-                            rd.setOptions(useIndexFile=False)
                 elif scn.get('ignoreErrors') is False:
                     rd = ZipReader(top, ignoreErrors=False).setOptions(**ropts)
                 if scn.get('second_opts') is not None:
@@ -481,6 +492,8 @@ def generate(rng, tier):
                 used.add(path)
                 tree.append({'path': path, 'hex': _hex(gen_content(rng, path)), 'mtime': rng.choice(SEASONS) + 2 * rng.randrange(0, 600000)})
         scn['more_requests'] = others
+    if rng.random() < 0.2:
+        scn['decoy'] = rng.choice(['zip-before', 'dir-before', 'zip-after', 'dir-after'])
     if kind == 'dir':
         scn['url_style'] = rng.choice(['bare', 'bare', 'file', 'file', 'file-host'])
         if rng.random() < 0.2:
